@@ -37,9 +37,9 @@ FORBIDDEN = re.compile(r"\bsorry\b|\badmit\b|^\s*axiom\s|native_decide|bv_decide
 
 FLAVOURS = {
     "plain": dict(cxx="g++", flags="-O2 -DNDEBUG", cmake_type="Release", extra=""),
-    "asan": dict(cxx="g++", flags="-O1 -g -fsanitize=address,undefined -fno-sanitize-recover=all -fno-omit-frame-pointer",
+    "asan": dict(cxx="g++", flags="-O1 -g -DNDEBUG -fsanitize=address,undefined -fno-sanitize-recover=all -fno-omit-frame-pointer",
                  cmake_type="None", extra="-fsanitize=address,undefined"),
-    "tsan": dict(cxx="g++", flags="-O1 -g -fsanitize=thread", cmake_type="None", extra="-fsanitize=thread"),
+    "tsan": dict(cxx="g++", flags="-O1 -g -DNDEBUG -fsanitize=thread", cmake_type="None", extra="-fsanitize=thread"),
 }
 LIBS = ["linear", "machine", "solver", "program", "function", "core"]
 
